@@ -40,6 +40,7 @@ var (
 	BuildConsensusError   = errors.New("Build consensus Error")
 	ConsensusNotRegister  = errors.New("Consensus hasn't been register. Please use consensus.Register({NAME},{FUNCTION_POINTER}) to register in consensusMap")
 	ContractMngErr        = errors.New("Contract manager is empty.")
+	BlockHeightErr        = errors.New("Block height is not its parent's height plus one")
 )
 
 // PluggableConsensus 实现了consensus_interface接口
@@ -292,6 +293,12 @@ func (pc *PluggableConsensus) CheckMinerMatch(ctx xcontext.XContext, block cctx.
 	if con == nil {
 		pc.ctx.XLog.Error("Pluggable Consensus::CheckMinerMatch::tail consensus item is empty", "err", EmptyConsensusListErr)
 		return false, EmptyConsensusListErr
+	}
+	// 区块自带的height字段既不在blockid也不在签名的覆盖范围内(账本落盘时才用父区块高度+1覆盖),
+	// 而各共识插件都依据它来确定出块人、候选人集合或难度, 因此高度与父区块不衔接的区块直接拒绝
+	if pre, err := pc.ctx.Ledger.QueryBlock(block.GetPreHash()); err == nil && block.GetHeight() != pre.GetHeight()+1 {
+		pc.ctx.XLog.Warn("Pluggable Consensus::CheckMinerMatch::block height mismatch", "height", block.GetHeight(), "preHeight", pre.GetHeight())
+		return false, BlockHeightErr
 	}
 	return con.CheckMinerMatch(ctx, block)
 }
